@@ -59,6 +59,7 @@ func (r *Router) route(s Sender, p stanza.Packet) {
 		route, ok := r.IQResultRoutes[iq.Id]
 		r.IQResultRouteLock.RUnlock()
 		if ok {
+			verifPoint("route.iqresult.found", iq.Id)
 			r.IQResultRouteLock.Lock()
 			delete(r.IQResultRoutes, iq.Id)
 			r.IQResultRouteLock.Unlock()
